@@ -68,6 +68,7 @@ def run(ctx):
 
     thorough = not ctx.quick()
     probe = engine(ctx, binary, "TestPruneProbe", {}, timeout=600)
+    ctx.absorb(probe, "prune", "TestPruneProbe")   # directed replays of the confirmed defects
     fixed = bool(probe.get("stats", {}).get("FixPruneAtomicFloor", False))
     ctx.coverage["switches_probed_on_code"] = {"FixPruneAtomicFloor": fixed}
     vlib.log("FixPruneAtomicFloor probed on the real code: %s" % fixed)
